@@ -14,6 +14,10 @@ def run(chk, binp, prop, n, extra=(), timeout=900, seed_offset=0):
     os.makedirs(os.path.join(C.REPLAYS, "fonts"), exist_ok=True)
     os.environ["RBV_DUMP_DIR"] = os.path.join(C.REPLAYS, "fonts")
     C.ENV["RBV_DUMP_DIR"] = os.path.join(C.REPLAYS, "fonts")
+    # every failing case is printed (up to the harness's cap): a sweep with listed known instances must see the failures
+    # BEHIND the first dozen too
+    os.environ["RBV_ALL_FAILS"] = "1"
+    C.ENV["RBV_ALL_FAILS"] = "1"
     timeout = max(timeout, 300 + int(n) // 100)   # deep (thorough) runs on a loaded machine
     rc, out, err = C.run_rbv(binp, ["e2e", prop.lower(), "--seed", chk.seed + seed_offset, "--n", n, "--trace", trace] + list(extra), timeout=timeout)
     fails = []
@@ -32,6 +36,9 @@ def run(chk, binp, prop, n, extra=(), timeout=900, seed_offset=0):
                         summary[k] = int(v)
                     except ValueError:
                         summary[k] = v
+    if isinstance(summary.get("fails"), int) and summary["fails"] > len(fails):
+        fails.append({"kind": "failures-not-all-reported", "font": "-", "req": "-",
+                      "detail": "the harness counted %d failing cases but printed %d" % (summary["fails"], len(fails))})
     crashed = None
     if rc != 0:
         last = ""
